@@ -1,6 +1,322 @@
-/- C09 — property theorems.  Stub. -/
-import CBV.Model.C09
+/-
+C09 — property theorems.  Translating, rotating, scaling or mirroring an entity is the affine similarity
+applied to every point cell exactly once (direction cells: linear part only, reversed by a mirror),
+whatever the shape of the part tree, provided no leaf is shared (NoAlias); default origins follow the entity;
+a copy is an equal entity on fresh cells.
+-/
+import CBV.Lemmas.C09Algebra
+import CBV.Lemmas.C09Tree
+import CBV.Lemmas.C09Center
+import CBV.Lemmas.C09Copy
+import CBV.Lemmas.C09Arc
 
 namespace CBV.C09
+open CBV
+
+set_option linter.unusedSimpArgs false
+
+/-! ### T_C09_point — the four primitives on a point are the affine map they are named after -/
+
+/-- every resolved transformation acts on points as an affine map with linear part `t.lin` -/
+theorem T_C09_point_affine (t : RT) :
+    (∀ p q, t.pt p - t.pt q = t.lin (p - q)) ∧ (∀ u v, t.lin (u + v) = t.lin u + t.lin v) ∧
+      (∀ c v, t.lin (V3.smul c v) = V3.smul c (t.lin v)) :=
+  ⟨RT.pt_sub t, RT.lin_add t, RT.lin_smul t⟩
+
+/-- … which is a similarity: distances are multiplied by the ratio (1 except for `scale`) … -/
+theorem T_C09_point_similarity (t : RT) (ht : t.Valid) (p q : V3) :
+    V3.norm2 (t.pt p - t.pt q) = t.ratio2 * V3.norm2 (p - q) := by
+  simp only [V3.norm2, RT.pt_sub, RT.lin_dot t ht]
+
+/-- … angles between directions are kept, orientation is kept by translate/rotate/scale and reversed by mirror -/
+theorem T_C09_point_orientation (t : RT) (ht : t.Valid) (u v : V3) :
+    V3.dot (t.lin u) (t.lin v) = t.ratio2 * V3.dot u v ∧
+      V3.cross (t.lin u) (t.lin v) = V3.smul t.sigma (t.lin (V3.cross u v)) :=
+  ⟨RT.lin_dot t ht u v, RT.lin_cross t ht u v⟩
+
+example : (RT.rotate 2 ⟨1, 2, 2⟩ ⟨1, 0, 3⟩).Valid ∧ (RT.mirror ⟨1, -3, 2⟩ ⟨0, 1, 1⟩).Valid := by
+  constructor <;> simp only [RT.Valid, V3.dot] <;> norm_num
+
+theorem T_C09_point_translate (d p : V3) : (RT.translate d).pt p = p + d := rfl
+
+/-- `rotate` keeps every point of the axis line through the origin … -/
+theorem T_C09_point_rotate_axis (w : Rat) (a o : V3) (s : Rat) :
+    rotP w a o (o + V3.smul s a) = o + V3.smul s a := by
+  have h : o + V3.smul s a - o = V3.smul s a := by apply V3.ext' <;> v3_unfold <;> ring
+  unfold rotP
+  rw [h, rotLin_smul, rotLin_axis, add_comm']
+
+/-- … and turns every direction normal to the axis by the angle `θ` with `cos θ = (w²−|a|²)/(w²+|a|²)`,
+    `sin θ = 2w|a|/(w²+|a|²)`, counter-clockwise about `a`: that is `θ = 2·atan2(|a|, w)`, the angle the harness
+    passes to the implementation -/
+theorem T_C09_point_rotate_angle (w : Rat) (a v : V3) (hN : w * w + V3.dot a a ≠ 0) (hperp : V3.dot a v = 0) :
+    (w * w + V3.dot a a) * V3.dot v (rotLin w a v) = (w * w - V3.dot a a) * V3.dot v v ∧
+      V3.smul (w * w + V3.dot a a) (V3.cross v (rotLin w a v)) = V3.smul (2 * w * V3.dot v v) a :=
+  ⟨rotLin_cos w a v hN hperp, rotLin_sin w a v hN hperp⟩
+
+example : (2 : Rat) * 2 + V3.dot ⟨1, 2, 2⟩ ⟨1, 2, 2⟩ ≠ 0 ∧ V3.dot ⟨1, 2, 2⟩ ⟨2, 1, -2⟩ = 0 := by
+  constructor <;> simp only [V3.dot] <;> norm_num
+
+theorem T_C09_point_scale (r : Rat) (o p : V3) : scaleP r o p - o = V3.smul r (p - o) := by
+  apply V3.ext' <;> v3_unfold <;> ring
+
+/-- `mirror` is an involution that fixes the plane through `o` normal to `n` pointwise and sends `o + n` to `o − n` -/
+theorem T_C09_point_mirror (n o p : V3) (hn : V3.dot n n ≠ 0) :
+    mirP n o (mirP n o p) = p ∧ (V3.dot (p - o) n = 0 → mirP n o p = p) ∧ mirP n o (o + n) = o - n := by
+  refine ⟨?_, ?_, ?_⟩
+  · have h : mirP n o p - o = mirLin n (p - o) := by apply V3.ext' <;> v3_unfold <;> ring
+    show mirLin n (mirP n o p - o) + o = p
+    rw [h, mirLin_invol n _ hn, sub_add_cancel']
+  · intro h
+    show mirLin n (p - o) + o = p
+    rw [mirLin_inplane n _ h, sub_add_cancel']
+  · have h : o + n - o = n := by apply V3.ext' <;> v3_unfold <;> ring
+    show mirLin n (o + n - o) + o = o - n
+    rw [h, mirLin_normal n hn]
+    apply V3.ext' <;> v3_unfold <;> ring
+
+example : V3.dot (⟨1, -3, 2⟩ : V3) ⟨1, -3, 2⟩ ≠ 0 := by simp only [V3.dot]; norm_num
+
+/-- direction quantities (the axis of an `Angle` edge, the normal of a `CircleCurve`) are rotated / reflected but
+    not displaced: their image does not depend on the displacement, the origin or the ratio, and they keep
+    their length -/
+theorem T_C09_direction (v : V3) :
+    (∀ d, (RT.translate d).dir v = v) ∧ (∀ r o, (RT.scale r o).dir v = v) ∧
+      (∀ w a o o', (RT.rotate w a o).dir v = (RT.rotate w a o').dir v) ∧
+      (∀ n o o', (RT.mirror n o).dir v = (RT.mirror n o').dir v) ∧
+      (∀ t : RT, t.Valid → V3.dot (t.dir v) (t.dir v) = V3.dot v v) := by
+  refine ⟨fun _ => rfl, fun _ _ => rfl, fun _ _ _ _ => rfl, fun _ _ _ => rfl, ?_⟩
+  intro t ht
+  cases t <;> simp only [RT.dir]
+  · exact rotLin_dot _ _ _ _ ht
+  · rw [dot_neg_neg]; exact mirLin_dot _ _ _ ht
+
+/-- a reflection turns the rotation about `a` into the rotation about the reversed reflected axis: mirroring the
+    point data and giving the axis cell `−(mirLin n a)` (what `AxisVector.mirror` does) reproduces the mirrored arc /
+    circle for every parameter value -/
+theorem T_C09_mirror_axial (n o : V3) (w : Rat) (a c p : V3) (hn : V3.dot n n ≠ 0) :
+    mirP n o (rotP w a c p) = rotP w ((RT.mirror n o).dir a) (mirP n o c) (mirP n o p) :=
+  mir_rot_conj n o w a c p hn
+
+/-! ### T_C09_tree — recursive delegation over an arbitrary part tree -/
+
+/-- no leaf object is reachable twice through `.parts` (validated on the real objects with `id()`) -/
+def NoAlias (e : Ent) : Prop := ((visitsE e).map Prod.fst).Nodup
+
+/-- every leaf refers to an existing cell -/
+def InHeap (e : Ent) (h : Heap) : Prop := ∀ v ∈ visitsE e, v.1 < h.length
+
+/-- Whatever the tree, a method call changes every point cell by the affine map, every direction cell by the
+    direction action, each exactly once, and nothing else. -/
+theorem T_C09_tree (t : RT) (e : Ent) (h : Heap) (hna : NoAlias e) (hin : InHeap e h) :
+    (∀ i, (i, false) ∈ visitsE e → Heap.get (applyE t e h).2 i = t.pt (Heap.get h i)) ∧
+    (∀ i, (i, true) ∈ visitsE e → Heap.get (applyE t e h).2 i = t.dir (Heap.get h i)) ∧
+    (∀ i, i ∉ (visitsE e).map Prod.fst → Heap.get (applyE t e h).2 i = Heap.get h i) ∧
+    (applyE t e h).2.length = h.length := by
+  rw [applyE_heap]
+  refine ⟨?_, ?_, ?_, runV_length t _ h⟩
+  · intro i hi
+    have := runV_once t (visitsE e) h i false hna hi (hin _ hi)
+    simpa using this
+  · intro i hi
+    have := runV_once t (visitsE e) h i true hna hi (hin _ hi)
+    simpa using this
+  · intro i hi
+    exact runV_untouched t _ h i hi
+
+/-- a face with an arc, a spline (array of two rows) and an Angle edge: 4 + 1 + 2 + 1 distinct cells -/
+def sampleFace : Ent :=
+  .node .face 0 [.pt 0, .pt 1, .pt 2, .pt 3, .node .edge 0 [.pt 4],
+    .node .spline 0 [.node .dcurve 0 [.arr [5, 6]]], .node .angle (1 / 2) [.dir 7], .node .edge 0 []]
+
+example : NoAlias sampleFace ∧ InHeap sampleFace (List.replicate 8 V3.zero) := by
+  constructor
+  · unfold NoAlias; decide
+  · unfold InHeap; decide
+
+/-- the same holds for the transformation list (the parts are transformed directly) -/
+theorem T_C09_tree_list (t : RT) (k : Kind) (a : Rat) (ch : List Ent) (h : Heap)
+    (hna : NoAlias (.node k a ch)) (hin : InHeap (.node k a ch) h) :
+    (∀ i, (i, false) ∈ visitsL ch → Heap.get (applyL t ch h).2 i = t.pt (Heap.get h i)) ∧
+    (∀ i, (i, true) ∈ visitsL ch → Heap.get (applyL t ch h).2 i = t.dir (Heap.get h i)) ∧
+    (∀ i, i ∉ (visitsL ch).map Prod.fst → Heap.get (applyL t ch h).2 i = Heap.get h i) := by
+  have h1 : visitsE (.node k a ch) = visitsL ch := by simp [visitsE]
+  have := T_C09_tree t (.node k a ch) h hna hin
+  simp only [applyE, h1] at this
+  exact ⟨this.1, this.2.1, this.2.2.1⟩
+
+/-- translate / rotate / scale never change the tree; -/
+theorem T_C09_tree_shape (t : RT) (ht : t.isMirror = false) (e : Ent) (h : Heap) : (applyE t e h).1 = e :=
+  applyE_tree t ht e h
+
+/-- `Operation.mirror` mirrors the six parts, swaps the two faces and reverses the data of the four side edges
+    (so that each side edge still describes the mirror image of its curve, now from the other end) -/
+theorem T_C09_op_mirror (n o : V3) (a : Rat) (b t s0 s1 s2 s3 : Ent) (h : Heap) :
+    ∃ b' t' s0' s1' s2' s3' h',
+      applyL (.mirror n o) [b, t, s0, s1, s2, s3] h = ([b', t', s0', s1', s2', s3'], h') ∧
+      applyE (.mirror n o) (.node .op a [b, t, s0, s1, s2, s3]) h =
+        (.node .op a [t', b', reverseE s0', reverseE s1', reverseE s2', reverseE s3'], h') := by
+  simp only [applyE, applyL, RT.isMirror, invertOp, List.map, Bool.true_and, beq_self_eq_true, if_true]
+  exact ⟨_, _, _, _, _, _, _, rfl, rfl⟩
+
+/-- reversing the data of an Angle or Spline/PolyLine edge twice gives it back -/
+theorem T_C09_reverse_involutive (a a2 : Rat) (ch : List Ent) (is : List Nat) :
+    reverseE (reverseE (.node .angle a ch)) = .node .angle a ch ∧
+      reverseE (reverseE (.node .spline a [.node .dcurve a2 [.arr is]])) = .node .spline a [.node .dcurve a2 [.arr is]] := by
+  simp [reverseE]
+
+/-- without NoAlias the statement is false: a leaf that is shared by two parts (the `Face` that the lofts of a
+    sphere shared before the repair) is moved twice -/
+theorem T_C09_alias_counterexample :
+    let e : Ent := .node .shape 0 [.pt 0, .pt 0]
+    ¬ NoAlias e ∧
+      Heap.get (applyE (.translate ⟨1, 0, 0⟩) e [⟨5, 5, 5⟩]).2 0 = ⟨7, 5, 5⟩ := by
+  constructor
+  · unfold NoAlias; decide
+  · simp only [applyE, applyL, RT.pt, Heap.get]
+    apply V3.ext' <;> (simp [RT.pt]; try norm_num)
+
+/-! ### T_C09_compose — transformation lists and default origins -/
+
+/-- a list (or a chain of method calls) is the composition of its steps, each resolved against the state the
+    previous steps left behind -/
+theorem T_C09_compose (viaMethod : Bool) (t : Tr × Option V3) (ts : List (Tr × Option V3)) (s : Ent × Heap) :
+    runSteps viaMethod (t :: ts) s =
+      ((if viaMethod then method t.1 t.2 s else transformStep t.1 t.2 s).bind (runSteps viaMethod ts)) := by
+  simp only [runSteps, List.foldlM_cons]
+  rfl
+
+/-- every modelled centre is an average of points, and an affine map commutes with averages: -/
+theorem T_C09_center_equivariant (t : RT) (ps : List V3) (hne : ps ≠ []) : t.pt (avg ps) = avg (ps.map t.pt) :=
+  RT.pt_avg t ps hne
+
+/-- hence the default origin of the next step is the image of the previous centre; spelled out for a face with
+    four distinct corner cells (any edge data): after any method call the centre of the face is the image of its
+    centre -/
+theorem T_C09_compose_face (t : RT) (a : Rat) (i0 i1 i2 i3 : Nat) (edges : List Ent) (h : Heap)
+    (hna : NoAlias (.node .face a (.pt i0 :: .pt i1 :: .pt i2 :: .pt i3 :: edges)))
+    (hin : InHeap (.node .face a (.pt i0 :: .pt i1 :: .pt i2 :: .pt i3 :: edges)) h) :
+    let e : Ent := .node .face a (.pt i0 :: .pt i1 :: .pt i2 :: .pt i3 :: edges)
+    center (applyE t e h).2 none (applyE t e h).1 = (center h none e).map t.pt := by
+  intro e
+  have ht := T_C09_tree t e h hna hin
+  have hv : ∀ i, i ∈ [i0, i1, i2, i3] → (i, false) ∈ visitsE e := by
+    intro i hi
+    simp only [e, visitsE, visitsL, List.mem_append, List.mem_cons, List.not_mem_nil, or_false, List.cons_append,
+      List.nil_append, Prod.mk.injEq, and_true] at hi ⊢
+    rcases hi with h | h | h | h <;> simp [h]
+  have g0 := ht.1 i0 (hv i0 (by simp))
+  have g1 := ht.1 i1 (hv i1 (by simp))
+  have g2 := ht.1 i2 (hv i2 (by simp))
+  have g3 := ht.1 i3 (hv i3 (by simp))
+  have hshape : ∃ es', (applyE t e h).1 = .node .face a (.pt i0 :: .pt i1 :: .pt i2 :: .pt i3 :: es') := by
+    simp only [e, applyE, applyL]
+    cases hm : t.isMirror <;> simp
+  obtain ⟨es', hs⟩ := hshape
+  rw [hs]
+  simp only [center, faceCenter, facePts, children, List.take, List.filterMap, ptOf, Option.map, e]
+  rw [g0, g1, g2, g3]
+  rw [T_C09_center_equivariant t _ (by simp)]
+  simp
+
+/-- an operation keeps its centre under `mirror` although its faces are swapped -/
+theorem T_C09_center_swap (ps qs : List V3) : avg (ps ++ qs) = avg (qs ++ ps) := avg_append_comm ps qs
+
+/-! ### T_C09_derived — arc points derived from transformed edge data -/
+
+/-- `Origin` edges (and every use of `functions.arc_mid`): the third point computed from the transformed centre and
+    end points is the transformed third point; the square-root witnesses `r = |c − p1|`, `s = |mid − c|` are
+    multiplied by the similarity ratio `k` -/
+theorem T_C09_derived_origin (t : RT) (c p1 p2 : V3) (r s k : Rat) (hk : k ≠ 0) (hs : s ≠ 0) :
+    arcMid (t.pt c) (t.pt p1) (t.pt p2) (k * r) (k * s) = t.pt (arcMid c p1 p2 r s) :=
+  arcMid_equivariant t c p1 p2 r s k hk hs
+
+/-- … and the scaled witnesses are witnesses of the transformed data whenever `k·k` is the squared ratio -/
+theorem T_C09_derived_witness (t : RT) (ht : t.Valid) (p q : V3) (r k : Rat) (hr : r * r = V3.norm2 (p - q))
+    (hk : k * k = t.ratio2) : (k * r) * (k * r) = V3.norm2 (t.pt p - t.pt q) := by
+  rw [T_C09_point_similarity t ht, ← hr, ← hk]; ring
+
+/-- `Angle` edges: the centre `arc_from_theta` computes from the transformed end points and the transformed axis
+    cell (`t.dir`: turned by a rotation, untouched by translation and scaling, reflected *and reversed* by a mirror)
+    is the transformed centre — for every sector angle (`τ = tan(θ/2)`), with the witnesses `cr = |dp × axis|`,
+    `m = |chord|` multiplied by the ratio -/
+theorem T_C09_derived_angle (p1 p2 ax : V3) (τ cr m : Rat) (hcr : cr ≠ 0) (hτ : τ ≠ 0) :
+    (∀ d, angleCenter ((RT.translate d).pt p1) ((RT.translate d).pt p2) ((RT.translate d).dir ax) τ cr m
+        = (RT.translate d).pt (angleCenter p1 p2 ax τ cr m)) ∧
+    (∀ w a o, w * w + V3.dot a a ≠ 0 →
+      angleCenter ((RT.rotate w a o).pt p1) ((RT.rotate w a o).pt p2) ((RT.rotate w a o).dir ax) τ cr m
+        = (RT.rotate w a o).pt (angleCenter p1 p2 ax τ cr m)) ∧
+    (∀ r o, r ≠ 0 →
+      angleCenter ((RT.scale r o).pt p1) ((RT.scale r o).pt p2) ((RT.scale r o).dir ax) τ (r * cr) (r * m)
+        = (RT.scale r o).pt (angleCenter p1 p2 ax τ cr m)) ∧
+    (∀ n o, V3.dot n n ≠ 0 →
+      angleCenter ((RT.mirror n o).pt p1) ((RT.mirror n o).pt p2) ((RT.mirror n o).dir ax) τ cr m
+        = (RT.mirror n o).pt (angleCenter p1 p2 ax τ cr m)) := by
+  have key : ∀ (t : RT) (off' : V3), off' = t.lin (angleOffset (p2 - p1) ax τ cr m) →
+      V3.smul (1 / 2) (t.pt p1 + t.pt p2) + off' = t.pt (V3.smul (1 / 2) (p1 + p2) + angleOffset (p2 - p1) ax τ cr m) := by
+    intro t off' h
+    rw [h, RT.pt_mid]
+    have := RT.pt_sub t (V3.smul (1 / 2) (p1 + p2) + angleOffset (p2 - p1) ax τ cr m) (V3.smul (1 / 2) (p1 + p2))
+    rw [add_comm' (V3.smul (1 / 2) (p1 + p2)) _, add_sub_cancel'] at this
+    rw [← this, add_comm' (V3.smul (1 / 2) (p1 + p2)) _]
+    apply V3.ext' <;> simp only [V3.add_x, V3.add_y, V3.add_z, V3.sub_x, V3.sub_y, V3.sub_z] <;> ring
+  refine ⟨?_, ?_, ?_, ?_⟩
+  · intro d
+    unfold angleCenter
+    apply key
+    have : (RT.translate d).pt p2 - (RT.translate d).pt p1 = p2 - p1 := by
+      rw [RT.pt_sub]; rfl
+    rw [this]; rfl
+  · intro w a o hN
+    unfold angleCenter
+    apply key
+    rw [RT.pt_sub]
+    exact angleOffset_rotate w a (p2 - p1) ax τ cr m hN
+  · intro r o hr
+    unfold angleCenter
+    apply key
+    rw [RT.pt_sub]
+    exact angleOffset_scale r (p2 - p1) ax τ cr m hr hcr hτ
+  · intro n o hn
+    unfold angleCenter
+    apply key
+    rw [RT.pt_sub]
+    exact angleOffset_mirror n (p2 - p1) ax τ cr m hn
+
+example : (3 : Rat) ≠ 0 ∧ (1 / 2 : Rat) ≠ 0 := by norm_num
+
+/-- the chord and `dp × axis` of the transformed data are `ratio` times as long, so the scaled witnesses of
+    `T_C09_derived_angle` are the ones the implementation computes -/
+theorem T_C09_derived_angle_witness (t : RT) (ht : t.Valid) (dp ax : V3) :
+    V3.dot (chordOf (t.lin dp) (t.dir ax)) (chordOf (t.lin dp) (t.dir ax)) = t.ratio2 * V3.dot (chordOf dp ax) (chordOf dp ax) ∧
+    V3.dot (V3.cross (t.lin dp) (t.dir ax)) (V3.cross (t.lin dp) (t.dir ax))
+      = t.ratio2 * V3.dot (V3.cross dp ax) (V3.cross dp ax) :=
+  chord_cross_scale t ht dp ax
+
+/-! ### T_C09_copy -/
+
+/-- `copy()` leaves the heap it started from untouched (it is a prefix of the new heap), builds a tree of the same
+    shape whose leaves read equal values, and all its cells are fresh: no identity is shared with the original -/
+theorem T_C09_copy (e : Ent) (h : Heap) (hin : InHeap e h) :
+    (∃ ext, (copy e h).2 = h ++ ext) ∧
+    valsE (copy e h).2 (copy e h).1 = valsE h e ∧
+    skelE (copy e h).1 = skelE e ∧
+    (∀ v ∈ visitsE (copy e h).1, h.length ≤ v.1 ∧ v.1 < (copy e h).2.length) := by
+  have hinv : Inv h ⟨[], h⟩ := ⟨⟨[], by simp⟩, by intro p hp; cases hp⟩
+  obtain ⟨⟨_, hext, hvals, hfresh⟩, hskel⟩ := copyE_spec h e ⟨[], h⟩ hinv hin
+  exact ⟨hext, hvals, hskel, hfresh⟩
+
+example : InHeap sampleFace (List.replicate 8 V3.zero) := by unfold InHeap; decide
+
+/-- independence: whatever method is then called on the copy, every cell of the original keeps its value -/
+theorem T_C09_copy_independent (t : RT) (e : Ent) (h : Heap) (hin : InHeap e h) (i : Nat) (hi : i < h.length) :
+    Heap.get (applyE t (copy e h).1 (copy e h).2).2 i = Heap.get h i := by
+  obtain ⟨⟨ext, hext⟩, _, _, hfresh⟩ := T_C09_copy e h hin
+  rw [applyE_heap, runV_untouched]
+  · rw [hext]; exact get_append_left _ _ _ hi
+  · intro hmem
+    obtain ⟨v, hv, hvi⟩ := List.mem_map.mp hmem
+    have := (hfresh v hv).1
+    omega
 
 end CBV.C09
